@@ -32,7 +32,7 @@ def vectors(ctx):
     V = []
 
     def add(fn, f, case, **kw):
-        v = {"fn": "adsb." + fn, "frame": f, "case": case}
+        v = {"fn": "adsb." + fn, "frame": gen.selfsim_tail(rng, f, 0.05), "case": case}
         v.update(kw)
         if fn == "sil":
             v.setdefault("version", rng.choice([-1, 0, 1, 2]))
